@@ -275,6 +275,7 @@ class Zygote:
         self.cov_gwrites = {}
         self.cov_gslots = {}
         self.sensitive = []
+        self.slow_ops = []
 
 
 Z = Zygote()
@@ -292,12 +293,29 @@ def _prep_child():
     gen = O.make_gen_docs()
     allops = O.build_ops(gen)
     env = O.Env()
+    import signal
+
+    class _Slow(BaseException):
+        pass
+
+    def _alarm(*a):
+        raise _Slow()
+
+    slow = []
+    old = signal.signal(signal.SIGALRM, _alarm)
     for op in allops:
-        O.execute(op, env)
+        signal.alarm(20)
+        try:
+            O.execute(op, env)
+        except _Slow:
+            slow.append(op.name)  # a pool call that does not come back: left out of every run, reported by C15
+        finally:
+            signal.alarm(0)
+    signal.signal(signal.SIGALRM, old)
     # fault paths import errno/io etc. - already imported by simio
     after = set(sys.modules)
     new = sorted(m for m in after - before if sys.modules.get(m) is not None and m not in C.LATE.values())
-    return {"modules": new, "gen_docs": gen, "nops": len(allops)}
+    return {"modules": new, "gen_docs": gen, "nops": len(allops), "slow_ops": slow}
 
 
 def bootstrap():
@@ -322,7 +340,8 @@ def bootstrap():
             pass
     Z.prep_modules = prep["modules"]
     Z.gen_docs = prep["gen_docs"]
-    Z.ops = O.build_ops(Z.gen_docs)
+    Z.slow_ops = list(prep.get("slow_ops", []))
+    Z.ops = [o for o in O.build_ops(Z.gen_docs) if o.name not in set(Z.slow_ops)]
     Z.op_by_name = {o.name: o for o in Z.ops}
     for modname in C.LATE.values():
         if modname in sys.modules:
